@@ -83,6 +83,34 @@ pub(crate) fn build_reply<'b>(
     }
 }
 
+/// Verification hooks: public access to crate-private machinery
+#[cfg(simple_dns_verif)]
+pub mod verif {
+    pub use crate::resource_record_manager::{DomainResourceFilter, ResourceRecordManager};
+
+    /// Wrapper around the crate-private `build_reply`
+    pub fn build_reply<'b>(
+        packet: simple_dns::Packet,
+        resources: &'b ResourceRecordManager<'b>,
+    ) -> Option<(simple_dns::Packet<'b>, bool)> {
+        crate::build_reply(packet, resources)
+    }
+
+    /// Wrapper around the crate-private `InstanceInformation::from_records`
+    pub fn instance_from_records<'b>(
+        service_name: &simple_dns::Name<'b>,
+        records: impl Iterator<Item = &'b simple_dns::ResourceRecord<'b>>,
+    ) -> Option<crate::InstanceInformation> {
+        crate::InstanceInformation::from_records(service_name, records)
+    }
+
+    #[cfg(feature = "sync")]
+    pub use crate::sync_discovery::verif_add_response_to_resources as add_response_to_resources;
+
+    #[cfg(feature = "async-tokio")]
+    pub use crate::async_discovery::verif_add_response_to_resources as add_response_to_resources_async;
+}
+
 #[cfg(test)]
 mod tests {
     use simple_dns::Name;
